@@ -165,7 +165,7 @@ def write_instance(ctx, name, base, q, pubs, subs, bufs, reqs, nchunks, maxids, 
     return d
 
 
-def model_check(ctx, pid, name, q, pubs, subs, bufs, reqs, maxids, nchunks, view=None, timeout=900, workers=8,
+def model_check(ctx, pid, name, q, pubs, subs, bufs, reqs, maxids, nchunks, view=None, timeout=900, workers=6,
                 count=True, opts=None):
     view = view or "NoOutView"
     """Design check of PubSub.tla on one small instance with the invariants of property `pid`;
@@ -249,7 +249,7 @@ def witness(ctx, name, trap, q, pubs, subs, bufs, reqs, maxids, nchunks, view=No
     """Trap invariant = negated target state; returns the program (list of out records) reaching it."""
     extra = f"INVARIANTS Trap_{trap}\nALIAS TraceAlias\n" + (f"VIEW {view}\n" if view else "")
     d = write_instance(ctx, name, "PubSubWitness", q, pubs, subs, bufs, reqs, nchunks, maxids, cfg_extra=extra, opts=opts)
-    res = vp.tlc(d, name, workers=8, timeout=timeout, libs=["api"], coverage=False)
+    res = vp.tlc(d, name, workers=6, timeout=timeout, libs=["api"], coverage=False)
     vp.record_tlc(ctx, f"witness {trap} [{short(q)}]", res, count=False)
     if res.timed_out:
         raise vp.ToolError(f"witness search timed out: {name}")
@@ -761,6 +761,14 @@ def selftest(ctx, pid, trace, pick, mutate, what):
 def replay_common(ctx, pid, path):
     body = json.load(open(path))
     print(json.dumps({k: body.get(k) for k in ("what", "qos", "first_unexplained", "invariant")}, indent=1))
+    if body.get("kind") == "trace" and body.get("job") and "conc" in body["job"]:
+        # an execution of the concurrent phase: the whole phase is deterministic (DFS order / seeded walks)
+        vp.cargo_build([DRIVER])
+        before = len(ctx.violations)
+        concurrent_phase(ctx, pid)
+        again = len(ctx.violations) > before
+        print("REPRODUCED" if again else "not reproduced on the current tree")
+        return 1 if again else 0
     if body.get("kind") == "trace" and body.get("job"):
         vp.cargo_build([DRIVER])
         trace, summ = execute(ctx, [body["job"]], "replay")
